@@ -20,12 +20,17 @@ func extra(seed uint64, n int) {
 	groupProgram("extra/p256", p256.NewBlakeSHA256P256(), seed, n)
 	groupProgram("extra/qr512", p256.NewBlakeSHA256QR512(), seed, n/4+1)
 	groupProgram("extra/ed25519vartime", edwards25519vartime.NewBlakeSHA256Ed25519(false), seed, n)
+	historyProgram("extra/history/p256", p256.NewBlakeSHA256P256(), seed, 40)
+	historyProgram("extra/history/qr512", p256.NewBlakeSHA256QR512(), seed, 16)
+	historyProgram("extra/history/ed25519vartime", edwards25519vartime.NewBlakeSHA256Ed25519(false), seed, 40)
 	for _, ps := range []struct {
 		name string
 		s    pairing.Suite
 	}{{"bn256", bn256.NewSuite()}, {"bn254", bn254.NewSuite()}, {"kilic", kilic.NewBLS12381Suite()}, {"gnark", gnark.NewSuiteBLS12381()}} {
 		groupProgram("extra/"+ps.name+".G1", ps.s.G1(), seed, n/2+1)
 		groupProgram("extra/"+ps.name+".G2", ps.s.G2(), seed, n/4+1)
+		historyProgram("extra/history/"+ps.name+".G1", ps.s.G1(), seed, 30)
+		historyProgram("extra/history/"+ps.name+".G2", ps.s.G2(), seed, 16)
 		for i := 0; i < n/4+1; i++ {
 			msg := []byte(fmt.Sprintf("message %d/%d", i, seed))
 			a := mkScalar(ps.s.G1(), edge(5+8*i, order(ps.s.G1()), seed))
